@@ -12,6 +12,7 @@ SECTION = @@SECTION@@
 OPTION = @@OPTION@@
 CLI = @@CLI@@            # command-line flag that sets this option, or None
 L = @@L@@
+FIXB = @@FIXB@@          # argument name -> fixed boolean (shard constants that split large shards)
 hc.quiet_logging()
 
 _real_load = yu.load_yaml
@@ -87,17 +88,19 @@ def _put(v):
     return {SECTION: {OPTION: v}}
 
 
-def check(u_set: bool, s_set: bool, c_set: bool, cps: $$CPS$$, rel_s: bool, rel_u: bool, which: int, kind: int) -> bool:
+def check(u_set: bool, s_set: bool, c_set: bool, cps: $$CPS$$, rel_s: bool, rel_u: bool, which: int, kind: int, use_s: bool) -> bool:
     """
     pre: hc.cps_ok(cps, bad=(10, 13, 0)) and _cli_ok(cps)
     pre: CLI is not None or not c_set
     pre: MODE == "outdir" or (not rel_s and not rel_u)
+    pre: use_s or (not s_set and not rel_s and MODE != "wrongtype")
+    pre: all(dict(u_set=u_set, s_set=s_set, c_set=c_set, rel_s=rel_s, rel_u=rel_u, use_s=use_s)[k] == FIXB[k] for k in FIXB)
     pre: MODE == "wrongtype" or (which == 0 and kind == 0)
     pre: 0 <= which <= 1 and 0 <= kind <= 2
     post: _
     """
     captured.clear()
-    args = ["in.cmake", "-s", SFILE]
+    args = ["in.cmake"] + (["-s", SFILE] if use_s else [])          # with and without a -s file on the command line
     if MODE == "wrongtype":
         bad = [1, "yes", ["x"]][kind] if isinstance(DEFAULT_VALUE, bool) else [True, 7, {"a": 1}][kind]
         Env.user = _put(bad) if which == 0 else {}
@@ -105,8 +108,8 @@ def check(u_set: bool, s_set: bool, c_set: bool, cps: $$CPS$$, rel_s: bool, rel_
         try:
             cminx.main(args)
         except confuse.ConfigError:
-            return hc.report(True, which=which, kind=kind)
-        return hc.report(False, which=which, kind=kind)
+            return hc.report(True, which=which, kind=kind, use_s=use_s)
+        return hc.report(False, which=which, kind=kind, use_s=use_s)
     # values are built only for the sources that set the option (a menu lookup with a symbolic index forks)
     uv = _val(cps, 0) if u_set else None
     sv = _val(cps, 1) if s_set else None
@@ -114,9 +117,13 @@ def check(u_set: bool, s_set: bool, c_set: bool, cps: $$CPS$$, rel_s: bool, rel_
     Env.user = _put(uv) if u_set else {}
     Env.sfile = _put(sv) if s_set else {}
     if MODE == "outdir":
-        Env.sfile = dict(Env.sfile)
-        Env.sfile.setdefault("output", {})
-        Env.sfile["output"] = dict(Env.sfile["output"], relative_to_config=rel_s)
+        # relative_to_config may be switched on in the -s file or in the per-user file (the default is false)
+        if rel_s:
+            Env.sfile = dict(Env.sfile)
+            Env.sfile["output"] = dict(Env.sfile.get("output", {}), relative_to_config=True)
+        if rel_u:
+            Env.user = dict(Env.user)
+            Env.user["output"] = dict(Env.user.get("output", {}), relative_to_config=True)
     if c_set:
         if MODE == "bool":
             args = args + [CLI]
@@ -127,7 +134,7 @@ def check(u_set: bool, s_set: bool, c_set: bool, cps: $$CPS$$, rel_s: bool, rel_
             args = args + [CLI, cv]
     cminx.main(args)
     if len(captured) != 1:
-        return hc.report(False, u_set=u_set, s_set=s_set, c_set=c_set, cps=cps, rel_s=rel_s, rel_u=rel_u)
+        return hc.report(False, u_set=u_set, s_set=s_set, c_set=c_set, cps=cps, rel_s=rel_s, rel_u=rel_u, use_s=use_s)
     got = getattr(getattr(captured[0], SECTION), OPTION)
     if MODE == "excl":
         # exclude patterns: the union of the patterns from all sources
@@ -137,9 +144,10 @@ def check(u_set: bool, s_set: bool, c_set: bool, cps: $$CPS$$, rel_s: bool, rel_
             ok = len(got) == len(exp) and all(sum(1 for g in got if g == e) == sum(1 for x in exp if x == e) for e in exp)
     elif MODE == "outdir":
         cwd = os.getcwd()
-        if c_set: exp = os.path.join(cwd, cv)
-        elif s_set: exp = os.path.join("/cfg" if rel_s else cwd, sv)
-        elif u_set: exp = os.path.join(USERDIR if rel_s else cwd, uv)
+        rel = rel_s or rel_u            # relative_to_config in effect (true in any source that sets it; default false)
+        if c_set: exp = os.path.join(cwd, cv)                      # the command line has no file: current directory
+        elif s_set: exp = os.path.join("/cfg" if rel else cwd, sv)
+        elif u_set: exp = os.path.join(USERDIR if rel else cwd, uv)
         else: exp = None
         ok = got == (os.path.normpath(exp) if exp is not None else None)
     else:
@@ -148,4 +156,4 @@ def check(u_set: bool, s_set: bool, c_set: bool, cps: $$CPS$$, rel_s: bool, rel_
             ok = list(got) == list(exp)
         else:
             ok = got == exp
-    return hc.report(ok, u_set=u_set, s_set=s_set, c_set=c_set, cps=cps, rel_s=rel_s, rel_u=rel_u)
+    return hc.report(ok, u_set=u_set, s_set=s_set, c_set=c_set, cps=cps, rel_s=rel_s, rel_u=rel_u, use_s=use_s)
